@@ -49,7 +49,7 @@ def improve_builtin_exceptions(exception):
     Returns:
         Exception: A new exception, or the original one unchanged.
     """
-    if isinstance(exception, BuiltinKeyError):
+    if type(exception) is BuiltinKeyError:
         return KeyError(exception, "key not found")
     return exception
 
